@@ -274,6 +274,37 @@ func TestVerifC03(t *testing.T) {
 		}
 	}
 
+	// well-formed programs started from arbitrary (boundary-biased) register contents and memory maps, directly on both engines:
+	// every register state is reachable by a program (13 load_imm_64), and it is what `invoke` hands to an inner machine. Finds
+	// host-language faults that depend on operand VALUES (a divisor whose low half is zero, a shift count, an address at 2^32-1).
+	ng := h.N(24000, 400000)
+	for i := 0; i < ng; i++ {
+		if !h.Mine("regs", i) {
+			continue
+		}
+		r := h.Rng("regs", i)
+		c := refpvm.GenCompilerLike(r, []uint64{0, 1, 8, 12, 100})
+		if r.IntN(4) == 0 {
+			c = vHostileCase(r)
+		}
+		engine := []string{"block-engine", "step-engine"}[i%2]
+		tg := vTarget{engine, func(b []byte, _ vh.R) {
+			prog, er := DeBlobProgramCode(append([]byte(nil), b...))
+			if er != ExitContinue {
+				return
+			}
+			ip := NewInterpreter(&prog, Registers(c.Regs), vImplMem(c.Pages), Gas(min(max(c.Gas, 0), 10000)))
+			if engine == "step-engine" {
+				ip.SingleStepInvoke(ProgramCounter(c.PC))
+			} else {
+				ip.SingleStepInvokeDecodedBlocks(ProgramCounter(c.PC))
+			}
+		}, false}
+		runOne("regs", i, tg, c.Blob, r, "")
+		h.Inc("runs_from_arbitrary_registers_" + engine)
+		h.Distinct("regs", c.Blob, c.Regs[:3])
+	}
+
 	// crafted headers whose size arithmetic wraps around 2^64, through every target
 	nw := h.N(1200, 24000)
 	for i := 0; i < nw; i++ {
